@@ -56,7 +56,8 @@ var (
 //     reads a header by number from this window — pruning it would break
 //     the syscall.
 //
-//  2. The hash → number mapping for endExclusive-1. Resolving
+//  2. The hash → number mapping for endExclusive-1 (oldestKept-1 when ctx
+//     was cancelled mid-loop). Resolving
 //     StateAtBlockHash(endExclusive.parentHash) needs this single mapping;
 //     it is cleaned up by the next PruneUpto call's oldestKept-1 sweep, so
 //     between calls exactly one extra mapping survives below endExclusive.
@@ -159,8 +160,9 @@ func PruneBlockDataUpto(w db.KeyValueRangeDeleter, rangeEndExclusive uint64) err
 //
 // Indexes touched:
 //
-//   - BlockHeaderNumberByHash (skipping endExclusive-1, the carve-out
-//     for StateAtBlockHash(endExclusive.parentHash))
+//   - BlockHeaderNumberByHash (skipping the last block the loop reaches —
+//     endExclusive-1 on completion, earlier if ctx was cancelled — the
+//     carve-out for StateAtBlockHash(<oldest kept block>.parentHash))
 //   - TransactionBlockNumbersAndIndicesByHash
 //   - L1HandlerTxnHashByMsgHash (only for L1 handler txs)
 //   - ContractStorageHistory / ContractNonceHistory / ContractClassHashHistory
@@ -177,15 +179,16 @@ func pruneHashKeyedUpto(
 	batch := database.NewBatch()
 	// batch is rotated below, so close whichever one is current at return.
 	defer func() { _ = batch.Close() }()
-	// Clean up the carve-out left by the previous PruneUpto call.
+	// prevBlockHash is the hash of blockNum-1, whose hash→number mapping is
+	// still present: initially the carve-out left at start-1 by the previous
+	// PruneUpto call.
+	var prevBlockHash *felt.Felt
 	if start > 0 {
 		blockHash, err := core.GetBlockHeaderHashByNumber(database, start-1)
 		if err != nil {
 			return 0, err
 		}
-		if err := core.DeleteBlockHeaderNumberByHash(batch, blockHash); err != nil {
-			return 0, err
-		}
+		prevBlockHash = blockHash
 	}
 
 	blockNum := start
@@ -199,14 +202,18 @@ func pruneHashKeyedUpto(
 			return 0, err
 		}
 
-		// Skip endExclusive-1: its hash→number mapping is the carve-out
-		// resolved by StateAtBlockHash(endExclusive.parentHash). Cleaned up
-		// by the next PruneUpto call via the start-1 branch above.
-		if blockNum != endExclusive-1 {
-			if err := core.DeleteBlockHeaderNumberByHash(batch, su.BlockHash); err != nil {
+		// The hash→number mapping of a block is deleted one iteration late,
+		// when its successor is pruned. Wherever the loop stops — at
+		// endExclusive or earlier because ctx was cancelled — the mapping of
+		// the last pruned block (the new oldest kept block's parent) survives:
+		// it is the carve-out resolved by StateAtBlockHash(parentHash) and is
+		// cleaned up by the next PruneUpto call.
+		if prevBlockHash != nil {
+			if err := core.DeleteBlockHeaderNumberByHash(batch, prevBlockHash); err != nil {
 				return 0, err
 			}
 		}
+		prevBlockHash = su.BlockHash
 
 		if err := deleteTransactionHashReverseLookups(database, batch, blockNum); err != nil {
 			return 0, err
